@@ -266,7 +266,7 @@ def runScript (cfg : Cfg) (toks : List String) : String :=
                | none => regs
              b01 dup :: go regs' ts
            | none => "0" :: go regs ts)
-        | ["t", p] => dumpOpt cfg (look p) :: go regs ts
+        | ["t", p] => (match look p with | some x => dumpVal cfg false 0 x | none => "(null)") :: go regs ts
         | _ => "bad-op" :: go regs ts
   "\t".intercalate (go (Array.replicate 16 none) toks)
 
